@@ -579,7 +579,79 @@ def check_builder(recipe, ctx):
     ctx.outcome([repr0[:80], [repr(d)[:60] for _, d in derived], inv_repr0[:80]])
 
 
+# ---------------------------------------------------------------------------
+# a stage function that raises for one item: map() / filter() objects carry on with the next item when the consumer
+# catches the error and keeps pulling - so does the pipeline
+
+class Boom(object):
+    def __init__(self, k, as_filter):
+        self.k, self.as_filter = k, as_filter
+        self.__name__ = 'boom%d' % k
+
+    def __call__(self, x):
+        if x == self.k:
+            raise ValueError('boom at %d' % x)
+        return (x % 2 == 0) if self.as_filter else x * 10
+
+    def __repr__(self):
+        return self.__name__
+
+
+def gen_resume(draw):
+    items = [draw(st.integers(0, 6)) for _ in range(draw(st.integers(2, 8)))]
+    return {'items': items, 'k': draw(st.sampled_from(items)), 'stage': draw(st.sampled_from(['map', 'filter'])),
+            'pre': draw(st.booleans()), 'post': draw(st.sampled_from([None, 'map', 'limit']))}
+
+
+def check_resume(recipe, ctx):
+    items, k = recipe['items'], recipe['k']
+    boom = Boom(k + (1 if recipe['pre'] else 0), recipe['stage'] == 'filter')
+    spec = Iter()
+    ref = iter(list(items))
+    if recipe['pre']:
+        spec = spec.map(T + 1)
+        ref = map(lambda x: x + 1, ref)
+    if recipe['stage'] == 'map':
+        spec = spec.map(boom)
+        ref = map(boom, ref)
+    else:
+        # (Iter.filter(f) keeps the items for which f is truthy; an error inside f is an error of that item)
+        spec = spec.filter(boom)
+        ref = filter(boom, ref)
+    if recipe['post'] == 'map':
+        spec = spec.map(T + 1)
+        ref = map(lambda x: x + 1, ref)
+    elif recipe['post'] == 'limit':
+        spec = spec.limit(len(items))
+        ref = itertools.islice(ref, len(items))
+
+    def drain(it):
+        out = []
+        for _ in range(len(items) + 3):
+            try:
+                out.append(('v', next(it)))
+            except StopIteration:
+                out.append(('end',))
+                break
+            except ValueError:
+                out.append(('error',))
+        return out
+    exp = drain(ref)
+    got_it = glom.glom(list(items), spec)
+    try:
+        got = drain(got_it)
+    except Exception as e:
+        raise Mismatch('resume-after-error', 'spec=%r items=%r: %s: %s' % (spec, items, type(e).__name__, e))
+    ctx.label('stage-' + recipe['stage'])
+    ctx.nontrivial(('error',) in exp and exp.index(('error',)) < len(exp) - 2)
+    if got != exp:
+        raise Mismatch('resume-after-error', 'spec=%r items=%r, the consumer catches the ValueError and keeps pulling: the composition '
+                       'of map/filter yields %r, the pipeline %r' % (spec, items, exp, got))
+    ctx.outcome([repr(spec), items])
+
+
 SUBS = [
+    Sub('resume', check_resume, gen=gen_resume, quick=400, thorough=2000),
     Sub('pipeline', check, gen=gen, quick=5000, thorough=20000,
         floors={'endless': 0.12, 'exp-ok': 0.5, 'stage-windowed': 0.03, 'stage-split': 0.03, 'stage-unique': 0.03,
                 'terminal-first': 0.08, 'terminal-all': 0.08}),
